@@ -12,6 +12,8 @@ import (
 
 	"github.com/smart-core-os/sc-golang/pkg/resource"
 	"github.com/smart-core-os/sc-golang/verifharness/lib"
+	"google.golang.org/grpc/codes"
+	"google.golang.org/grpc/status"
 	"google.golang.org/protobuf/proto"
 	pref "google.golang.org/protobuf/reflect/protoreflect"
 	"google.golang.org/protobuf/reflect/protoregistry"
@@ -23,6 +25,36 @@ type cop struct {
 	Id  string  `json:"id"`
 	Msg msgJSON `json:"msg,omitempty"`
 	msg proto.Message
+	// Create: an update with WithCreateIfAbsent (no WithExpectAbsent).
+	Create bool `json:"create,omitempty"`
+	// Rival: a complete write by somebody else, run from inside this write's interceptor callback (At:
+	// "before" | "after"), i.e. after this write's first read and before its locked re-validation read.
+	Rival *cop   `json:"rival,omitempty"`
+	At    string `json:"at,omitempty"`
+}
+
+func (o cop) toJSON() cop {
+	o.Msg = toJSON(o.msg)
+	if o.Rival != nil {
+		r := o.Rival.toJSON()
+		o.Rival = &r
+	}
+	return o
+}
+
+func (o cop) fromJSON() (cop, error) {
+	var err error
+	if o.msg, err = fromJSON(o.Msg); err != nil {
+		return o, err
+	}
+	if o.Rival != nil {
+		r, err := o.Rival.fromJSON()
+		if err != nil {
+			return o, err
+		}
+		o.Rival = &r
+	}
+	return o, nil
 }
 
 // incSpec is an include predicate of the closed family shared with the driver: a float/double top-level
@@ -90,8 +122,7 @@ func (c pcase) json() pcaseJSON {
 		j.Writes = append(j.Writes, toJSON(w))
 	}
 	for _, o := range c.Ops {
-		o.Msg = toJSON(o.msg)
-		j.Ops = append(j.Ops, o)
+		j.Ops = append(j.Ops, o.toJSON())
 	}
 	return j
 }
@@ -113,7 +144,7 @@ func (j pcaseJSON) decode() (pcase, error) {
 		c.Writes = append(c.Writes, m)
 	}
 	for _, o := range j.Ops {
-		if o.msg, err = fromJSON(o.Msg); err != nil {
+		if o, err = o.fromJSON(); err != nil {
 			return c, err
 		}
 		c.Ops = append(c.Ops, o)
@@ -205,6 +236,7 @@ type pullOut struct {
 	listErr   string
 	delivered []bool
 	got       []proto.Message
+	refused   int // writes refused (Aborted / NotFound) because their rival changed what they had read
 }
 
 type fakeClock struct {
@@ -342,31 +374,63 @@ func (c pcase) runCollection(out *pullOut) {
 		}
 	}()
 	cur := map[string]proto.Message{}
-	for i, o := range c.Ops {
-		clk.set(t0.Add(time.Duration(i+1) * time.Second))
-		var nv proto.Message
-		var err error
+	// every event gets a change time of its own: event k (in the order the writes commit) carries t0+(k+1)s
+	setClock := func() { clk.set(t0.Add(time.Duration(len(out.events)+1) * time.Second)) }
+	apply := func(o cop, extra ...resource.WriteOption) (proto.Message, error) {
 		switch o.Op {
 		case "add":
-			nv, err = col.Add(o.Id, clone(o.msg))
+			return col.Add(o.Id, clone(o.msg), extra...)
 		case "update":
-			nv, err = col.Update(o.Id, clone(o.msg))
-		default:
-			_, err = col.Delete(o.Id)
-			nv = nil
+			if o.Create {
+				extra = append(extra, resource.WithCreateIfAbsent())
+			}
+			return col.Update(o.Id, clone(o.msg), extra...)
 		}
+		_, err := col.Delete(o.Id)
+		return nil, err
+	}
+	record := func(id string, nv proto.Message) {
+		out.ids = append(out.ids, id)
+		out.olds = append(out.olds, cur[id])
+		out.events = append(out.events, clone(nv))
+		if nv == nil {
+			delete(cur, id)
+		} else {
+			cur[id] = clone(nv)
+		}
+	}
+	for _, o := range c.Ops {
+		setClock()
+		var extra []resource.WriteOption
+		if o.Rival != nil && o.Op != "delete" {
+			rival, ran := *o.Rival, false
+			hook := func(_, _ proto.Message) {
+				if ran {
+					return
+				}
+				ran = true
+				if nv, err := apply(rival); err == nil {
+					record(rival.Id, nv)
+				}
+				setClock()
+			}
+			if o.At == "after" {
+				extra = append(extra, resource.InterceptAfter(hook))
+			} else {
+				extra = append(extra, resource.InterceptBefore(hook))
+			}
+		}
+		nv, err := apply(o, extra...)
 		if err != nil {
+			if code := status.Code(err); o.Rival != nil && (code == codes.Aborted || code == codes.NotFound) {
+				// the rival changed what this write had read: refused, nothing happened
+				out.refused++
+				continue
+			}
 			out.err = o.Op + ":" + err.Error()
 			break
 		}
-		out.ids = append(out.ids, o.Id)
-		out.olds = append(out.olds, cur[o.Id])
-		out.events = append(out.events, clone(nv))
-		if nv == nil {
-			delete(cur, o.Id)
-		} else {
-			cur[o.Id] = clone(nv)
-		}
+		record(o.Id, nv)
 		if c.Inc != nil {
 			inc := c.Inc
 			var ids []string
@@ -638,10 +702,63 @@ func (g *gen) pcase() pcase {
 	} else {
 		ids := []string{"a", "b"}
 		cur := map[string]proto.Message{}
+		rivals := g.r.Intn(2) == 0 // writers overtaken, inside their own callback, by a complete rival write
+		empty := func() proto.Message { return mt.New().Interface() }
 		for n := g.r.Intn(7) + 1; n > 0; n-- {
 			id := ids[g.r.Intn(2)]
 			prev, ok := cur[id]
+			at := []string{"before", "after"}[g.r.Intn(2)]
 			switch {
+			case rivals && g.r.Intn(2) == 0 && !ok:
+				// create-if-absent overtaken by another creator of the same id. The overtaken write goes through iff
+				// what the rival stored is equal to the provisional (empty) message; it then REPLACES that item
+				rv := empty()
+				if g.r.Intn(4) == 0 {
+					rv = next(rv)
+				}
+				var m proto.Message
+				switch g.r.Intn(4) {
+				case 0, 1:
+					m = empty()
+				case 2:
+					m = next(empty())
+				default:
+					m = next(base)
+				}
+				c.Ops = append(c.Ops, cop{Op: "update", Create: true, Id: id, msg: m, At: at, Rival: &cop{Op: "update", Create: true, Id: id, msg: rv}})
+				if proto.Equal(rv, empty()) {
+					cur[id] = m
+				} else {
+					cur[id] = rv
+				}
+			case rivals && g.r.Intn(2) == 0 && ok:
+				// an update overtaken by a rival that re-writes the same item (equal or not) or writes the other id
+				m := next(prev)
+				other := ids[0]
+				if id == other {
+					other = ids[1]
+				}
+				switch g.r.Intn(3) {
+				case 0:
+					c.Ops = append(c.Ops, cop{Op: "update", Id: id, msg: m, At: at, Rival: &cop{Op: "update", Id: id, msg: proto.Clone(prev)}})
+					cur[id] = m
+				case 1:
+					rv := next(prev)
+					c.Ops = append(c.Ops, cop{Op: "update", Id: id, msg: m, At: at, Rival: &cop{Op: "update", Id: id, msg: rv}})
+					if proto.Equal(rv, prev) {
+						cur[id] = m
+					} else {
+						cur[id] = rv
+					}
+				default:
+					rv := next(base)
+					if p, ok := cur[other]; ok && g.r.Intn(2) == 0 {
+						rv = proto.Clone(p) // a no-op write of the other item
+					}
+					c.Ops = append(c.Ops, cop{Op: "update", Id: id, msg: m, At: at, Rival: &cop{Op: "update", Create: true, Id: other, msg: rv}})
+					cur[other] = rv
+					cur[id] = m
+				}
 			case !ok:
 				m := next(base)
 				c.Ops = append(c.Ops, cop{Op: "add", Id: id, msg: m})
@@ -739,7 +856,7 @@ func (g *gen) pcaseInclude() pcase {
 
 func runPull(f lib.Flags, res *lib.Result, drv *lib.Driver, ms *monitors) {
 	tie := res.Tie("pull-equivalence", "K1",
-		"random runs of Value.Pull (initial value or none, 1-6 Sets; every 5th with WithUpdatesOnly: no seed, the subscriber holds nothing, half of them first re-writing the stored value) and Collection.Pull (1-7 Add/Update/Delete on two ids) with backpressure, equivalence = none | WithNoDuplicates | Equal() | Equal(tolerances around the written differences) configured through WithMessageEquivalence or WithEquivalence(Comparer), read mask = none | 1-3 top-level fields; each write is the previous value mutated in 0-2 places; every third run is a Collection.Pull with WithInclude(float field gt/lt/ge threshold), equivalence none | exact | FloatValueApprox around the written steps, writes nudging the compared field, threshold on / just below / just above a written value, optional read mask (with or without the compared field). The model gets the event values the code produced and must reproduce the delivered/suppressed decision of every event. Non-trivial: distinct runs with an equivalence configured")
+		"random runs of Value.Pull (initial value or none, 1-6 Sets; every 5th with WithUpdatesOnly: no seed, the subscriber holds nothing, half of them first re-writing the stored value) and Collection.Pull (1-7 Add/Update/Delete on two ids; in half of the runs writers are overtaken, inside their own InterceptBefore/InterceptAfter callback - after their first read, before their locked re-validation read - by a complete rival write: another creator of the same absent id storing the empty or a non-empty message, a rival re-writing the same item with an equal or a different value, a rival writing the other id; refused writes (Aborted/NotFound) announce nothing) with backpressure, equivalence = none | WithNoDuplicates | Equal() | Equal(tolerances around the written differences) configured through WithMessageEquivalence or WithEquivalence(Comparer), read mask = none | 1-3 top-level fields; each write is the previous value mutated in 0-2 places; every third run is a Collection.Pull with WithInclude(float field gt/lt/ge threshold), equivalence none | exact | FloatValueApprox around the written steps, writes nudging the compared field, threshold on / just below / just above a written value, optional read mask (with or without the compared field). The model gets the event values the code produced and must reproduce the delivered/suppressed decision of every event. Non-trivial: distinct runs with an equivalence configured")
 	g := &gen{r: lib.NewRand(f.Seed + 104729)}
 	n := f.N(500, 6000)
 	for i := 0; i < n; i++ {
